@@ -3,6 +3,7 @@ package props
 import (
 	"fmt"
 	"reflect"
+	"runtime"
 	"strings"
 	"sync"
 
@@ -314,8 +315,67 @@ func init() {
 					c.Sample("(write a1(*SA); write *SB{P:a1})^25 with reads lagging by 2")
 				}})
 			}
+			// long streams of temporary values with the garbage collector run between writes: an object that
+			// was written and has since been freed must not be mistaken for a later object at the same address
+			for api := 0; api < 2; api++ {
+				api := api
+				us = append(us, core.Unit{Name: fmt.Sprintf("gc-stream:api%d", api), Cost: 40, Run: func(c *core.Ctx) {
+					for _, kind := range []string{"struct", "list", "map", "20 classes"} {
+						if !c.Begin() {
+							continue
+						}
+						c.NontrivialN(1)
+						r := newStreamRun(api)
+						for _, mk := range classVals {
+							t2, n2, _ := Maps(mk(0))
+							for k2, v2 := range t2 {
+								r.tm[k2] = v2
+							}
+							for k2, v2 := range n2 {
+								r.nm[k2] = v2
+							}
+						}
+						n := tierPick(tier, 1500, 6000)
+						bad := ""
+						for i := 0; i < n && bad == ""; i++ {
+							var v interface{}
+							switch kind {
+							case "struct":
+								v = &SA{X: int32(i), S: "tmp"}
+							case "list":
+								v = []int32{int32(i), int32(i + 1)}
+							case "map":
+								v = zoo.NamedMap{"k": fmt.Sprint(i)}
+							default:
+								v = classVals[i%20](int32(i))
+							}
+							// the temporary value takes slot 0 of the alphabet; the previous one becomes garbage
+							r.objs[0] = v
+							if st, k, m := r.step(0); st != "" {
+								bad = fmt.Sprintf("write #%d: %s/%s %s", i, st, k, m)
+								break
+							}
+							r.pair = NewPairing() // addresses of freed temporaries may be reused: pair per value
+							if st, k, m := r.step(opRead); st != "" {
+								bad = fmt.Sprintf("value #%d of the stream: %s/%s %s", i, st, k, m)
+							}
+							if i%4 == 3 {
+								runtime.GC()
+							}
+						}
+						c.Res.States++
+						c.Res.Transitions += int64(2 * n)
+						if bad != "" {
+							c.Report(&core.Violation{Stage: "gc-stream", Kind: "mismatch", Shape: kind, Message: msgStrict(bad), Case: fmt.Sprintf("stream of %d temporary %s values, runtime.GC() after every 4th write", n, kind)})
+						} else {
+							c.Outcome("gc-stream-ok")
+						}
+					}
+					c.Cover("gc-stream")
+				}})
+			}
 			return us
 		},
-		RequireCover: func(string) []string { return []string{"api0", "api1", "long"} },
+		RequireCover: func(string) []string { return []string{"api0", "api1", "long", "gc-stream"} },
 	})
 }
